@@ -12,7 +12,8 @@ import sys
 ROOT = '/verif'
 EXTRA = {  # additional checks expected to notice a change that was written against another property
     'C02-a': ['C03'], 'C02-b': ['C12'], 'C04-a': ['C08'], 'C05-a': ['C08'], 'C07-b': ['C11'], 'C08-a': [], 'C08-b': [],
-    'C09-b': [], 'C10-b': [], 'C12-a': ['C02'], 'C20-b': ['C08'], 'C11-a': ['C08'],
+    'C09-b': [], 'C10-b': [], 'C12-a': ['C02'], 'C20-b': ['C08'], 'C11-a': [], 'C05-c': ['C04', 'C02'], 'C11-c': ['C08'],
+    'C15-d': ['C08'], 'C16-d': ['C08'], 'C08-c': ['C20'], 'C07-d': ['C11'], 'C18-d': ['C12'], 'C02-c': ['C05'], 'C02-d': ['C15'],
 }
 
 
